@@ -27,6 +27,11 @@ struct Failure { kind: &'static str, detail: String, witness: Option<String> }
 fn gen_key(r: &mut Rng) -> Vec<u8> { vec![b'k', b'0' + r.below(5) as u8] }
 fn gen_val(r: &mut Rng) -> Vec<u8> { match r.below(6) { 0 => vec![], 1 => r.bytes(300), _ => vec![b'v', r.below(256) as u8] } }
 
+fn model_seq(lean: &mut Lean) -> u64 {
+    let st = lean.ask("db.state");
+    st.split("seqno=").nth(1).and_then(|s| s.split(' ').next()).and_then(|s| s.parse().ok()).unwrap_or(0)
+}
+
 fn open(dir: &Path) -> fjall::Result<Database> { Database::builder(dir).worker_threads_unchecked(0).open() }
 
 fn dump_ks(ks: &Keyspace) -> Result<Map, String> {
@@ -75,6 +80,7 @@ fn run_case(seed: u64, lean: &mut Lean, hist: &mut BTreeMap<String, u64>, sample
     let names: Vec<&str> = if many { vec!["a", "b", "c", "d", "e", "f", "g", "h", "i", "j", "k", "l"] } else { vec!["a", "b", "c"] };
     let mut live: BTreeMap<&str, Live> = BTreeMap::new();
     let mut refm: BTreeMap<&str, Map> = BTreeMap::new();
+    let mut seqmap: BTreeMap<u64, u64> = BTreeMap::new(); // real seqno -> model seqno
     let mut stale: Vec<(Keyspace, u64)> = vec![]; // handles of deleted keyspaces
     let mut deleted_ids: BTreeSet<u64> = BTreeSet::new();
     let mut secrets: BTreeMap<u64, Vec<Vec<u8>>> = BTreeMap::new(); // values ever written to a deleted keyspace id
@@ -138,9 +144,13 @@ fn run_case(seed: u64, lean: &mut Lean, hist: &mut BTreeMap<String, u64>, sample
                     lean.ask("db.maintenance");
                 }
             }
-            for l in live.values() { if l.handle.l0_table_count() >= 10 { let _ = l.handle.major_compact(); use fjall::AbstractTree; let p = l.handle.tree.get_highest_persisted_seqno(); lean.ask(&format!("db.lowerpersisted {} {}", l.id, p.map(|x| x.to_string()).unwrap_or("none".into()))); } }
+            for l in live.values() { if l.handle.l0_table_count() >= 10 { let _ = l.handle.major_compact(); use fjall::AbstractTree; let p = l.handle.tree.get_highest_persisted_seqno(); lean.ask(&format!("db.lowerpersisted {} {}", l.id, p.map(|x| seqmap.get(&x).copied().unwrap_or(x).to_string()).unwrap_or("none".into()))); } }
             trace.push(format!("drain x{guard}"));
         }
+        // real seqno -> model seqno of the records written so far (the two counters run apart: keyspace creation,
+        // clears and registrations consume different amounts); needed to hand observed table watermarks to the model
+        let r0 = dbref!().seqno();
+        let m0 = model_seq(lean);
         let choice = r.below(40);
         match choice {
             0..=3 => {
@@ -306,7 +316,8 @@ fn run_case(seed: u64, lean: &mut Lean, hist: &mut BTreeMap<String, u64>, sample
                     // in the tables is an observed environment input of the model (it can only go down)
                     use fjall::AbstractTree;
                     let p = live[n].handle.tree.get_highest_persisted_seqno();
-                    let rep = lean.ask(&format!("db.lowerpersisted {} {}", live[n].id, p.map(|x| x.to_string()).unwrap_or("none".into())));
+                    if let Some(x) = p { if !seqmap.contains_key(&x) { *hist.entry("persisted-seqno-without-model-counterpart".into()).or_insert(0) += 1; } }
+                    let rep = lean.ask(&format!("db.lowerpersisted {} {}", live[n].id, p.map(|x| seqmap.get(&x).copied().unwrap_or(x).to_string()).unwrap_or("none".into())));
                     if !no_model() && rep != "ok" { fail!("model-vs-impl", "observed highest persisted seqno {p:?} after major_compact breaks the model's physical assumption (a live value above it): {rep}"); }
                 }
                 trace.push(format!("major_compact {n}"));
@@ -451,8 +462,15 @@ fn run_case(seed: u64, lean: &mut Lean, hist: &mut BTreeMap<String, u64>, sample
                 trace.push("check".into());
             }
         }
+        {
+            let (r1, m1) = (dbref!().seqno(), model_seq(lean));
+            if r1 > r0 && m1 > m0 {
+                if r1 - r0 == m1 - m0 { for i in 0..(r1 - r0) { seqmap.insert(r0 + i, m0 + i); } } else { seqmap.insert(r1 - 1, m1 - 1); }
+            }
+        }
         // after every op: journal count relation with the model
         let st = lean.ask("db.state");
+        if std::env::var("VERIF_DEBUG").is_ok() { eprintln!("DEBUG {} | real journals={} | {st} | real: {}", trace.last().cloned().unwrap_or_default(), dbref!().journal_count(), live.iter().map(|(n, l)| { use fjall::AbstractTree; format!("{n}(id {}): sealed={} persisted={:?} memseq={:?}", l.id, l.handle.sealed_memtable_count(), l.handle.tree.get_highest_persisted_seqno(), l.handle.tree.get_highest_memtable_seqno()) }).collect::<Vec<_>>().join(", ")); }
         let mj = st.split("journals=").nth(1).and_then(|s| s.split(' ').next()).and_then(|s| s.parse::<usize>().ok()).unwrap_or(0);
         if !no_model() && mj != dbref!().journal_count() {
             fail!("model-vs-impl", "journal count: model {mj} vs real {} ({st})", dbref!().journal_count());
